@@ -7,12 +7,14 @@ def tu_check(tu):
     s = sizes.c_facts(tu)
     u = unlink.c_rules(tu)
     sc = splitcommit.analyse_tu(tu)
-    return dict(sizes=s, unlink=u, split=sc)
+    from ..rules import firstbucket
+    fb = firstbucket.analyse_tu(tu)
+    return dict(sizes=s, unlink=u, split=sc, fb=fb)
 
 
 def run(tier="quick", seed=0, use_cache=True):
     res = engine.Result("C03")
-    res.rules = ["SIZE-WIRING", "SPLIT-POINT", "UNLINK-STATUS", "PY-UNLINK-STATUS", "SPLIT-COMMIT"]
+    res.rules = ["SIZE-WIRING", "SPLIT-POINT", "UNLINK-STATUS", "PY-UNLINK-STATUS", "SPLIT-COMMIT", "FIRSTBUCKET-INV"]
     res.explanation = (
         "Structural necessary conditions of the tree invariants, extracted "
         "from the code of both implementations and compared with the "
@@ -39,11 +41,13 @@ def run(tier="quick", seed=0, use_cache=True):
         res.findings.extend(r["sizes"]["findings"], fam)
         res.findings.extend(r["unlink"]["findings"], fam)
         res.findings.extend(r["split"]["findings"], fam)
+        res.findings.extend(r["fb"]["findings"], fam)
     res.floor("translation units", len(out), 22)
     res.count("SIZE-WIRING", sum(r["sizes"]["n"] for r in out.values()))
     res.count("UNLINK-STATUS", sum(r["unlink"]["n"] for r in out.values()))
     res.floor("split call sites (OO)", out["OO"]["split"]["stats"]["split_call_sites"], 2)
     res.floor("commit stores in the split functions (OO)", out["OO"]["split"]["stats"]["split_commit_stores"], 3)
+    res.count("FIRSTBUCKET-INV", sum(r["fb"]["stats"]["firstbucket_stores"] for r in out.values()))
     res.count("SPLIT-COMMIT", sum(r["split"]["stats"]["split_call_sites"] + r["split"]["stats"]["split_commit_stores"] for r in out.values()))
     res.extra["split_commit_accepted_idioms"] = out["OO"]["split"]["stats"]["accepted"]
     sizes.py_check(res, out["OO"]["sizes"]["facts"])
